@@ -1015,6 +1015,62 @@ theorem commitment_not_emitted_without_roundtrip {env : Env} {c c' : Chain} {p :
     c'.commits (p.dst, p.seq) ≠ some (env.sha256 raw) := by
   rw [(one_commitment_send h).2.2.1]; intro e; injection e with e; exact hne e
 
+/-! ### the other hooks of the chain (staking, gov, aggregate run BEFORE the packet hook on the same receipt) -/
+
+/-- A hook earlier in ethermint's `MultiEvmHooks` chain, as far as the packet hook is concerned: `view ls` is what the
+SHARED receipt's log list holds after the hook ran on `ls` (Go slices alias: a hook that filters "in place" —
+`logs := receipt.Logs[:0]; logs = append(logs, log)` — overwrites entries of the receipt the later hooks read),
+`ok ls` whether it returned nil. -/
+structure OtherHook where
+  view : List Log → List Log
+  ok : List Log → Bool
+
+/-- the hook only reads the receipt -/
+def ReadOnly (h : OtherHook) : Prop := ∀ ls, h.view ls = ls
+
+/-- the log list the packet hook receives after the earlier hooks of the chain -/
+def chainView (hs : List OtherHook) (ls : List Log) : List Log := hs.foldl (fun l h => h.view l) ls
+
+/-- every earlier hook returned nil (each on the list as its predecessors left it) -/
+def chainOk : List OtherHook → List Log → Bool
+  | [], _ => true
+  | h :: hs, ls => h.ok ls && chainOk hs (h.view ls)
+
+/-- `ApplyTransaction` with the whole hook chain: the EVM state committed is that of the logs the EVM produced; the
+packet hook consumes the receipt as the earlier hooks left it; any hook error reverts the transaction. -/
+def applyTxChain (env : Env) (c : Chain) (hs : List OtherHook) (vmOk : Bool) (logs : List Log) : Chain × Res :=
+  if !vmOk then (c, .vmFailed)
+  else if !chainOk hs logs then (c, .hookFailed)
+  else
+    match hookP env (evmCommit c logs) (chainView hs logs) with
+    | (c', true) => (c', .ok)
+    | (_, false) => (c, .hookFailed)
+
+theorem chainView_readOnly (hs : List OtherHook) (hro : ∀ h ∈ hs, ReadOnly h) (ls : List Log) : chainView hs ls = ls := by
+  induction hs generalizing ls with
+  | nil => rfl
+  | cons h t ih =>
+    show chainView t (h.view ls) = ls
+    rw [hro h (by simp), ih (fun x hx => hro x (by simp [hx]))]
+
+/-- **Other hooks do not hide sends**: if every hook earlier in the chain only reads the receipt (and returns nil), the
+packet hook sees exactly the log list the EVM produced — the transaction behaves as `applyTx` says, so every
+`PacketSent` log of the packet contract in the receipt gets its `SendPacket` (commitment, both counters), wherever the
+other system contracts' logs stand in the receipt. The hypothesis is a statement about Go slice aliasing in
+`adapter/*/hooks.go` and `x/*/keeper/evm_hooks.go`; it is checked on the source by the harness
+(`C04:hook-modifies-shared-receipt`) and behaviourally by the mixed-receipt transactions. -/
+theorem other_hooks_do_not_hide_sends (env : Env) (c : Chain) (hs : List OtherHook) (v : Bool) (logs : List Log)
+    (hro : ∀ h ∈ hs, ReadOnly h) (hok : chainOk hs logs = true) :
+    applyTxChain env c hs v logs = applyTx env c v logs := by
+  unfold applyTxChain applyTx
+  rw [chainView_readOnly hs hro logs, hok]
+  cases v
+  · simp
+  · simp only [Bool.not_true, Bool.false_eq_true, ↓reduceIte]
+    generalize hookP env (evmCommit c logs) logs = r
+    obtain ⟨c1, ok⟩ := r
+    cases ok <;> rfl
+
 /-! ### witnesses and non-vacuity -/
 
 section Examples
@@ -1102,6 +1158,15 @@ example :
     chainNext (applyTx envId c1 true [.sent (pk nB (2 ^ 64 - 1))]).1 nB = 2 ^ 64 - 1 ∧
     (applyTx envId c1 true [.sent (pk nB 0)]).2 = .hookFailed ∧ (applyTx envId c1 true [.sent (pk nB 1)]).2 = .hookFailed := by
   decide
+
+/-- what a hook that filters the shared slice in place does: with a receipt `[PacketSent, staking log]` (the staking
+log is `other` for the packet hook) the kept staking log overwrites entry 0 — the packet hook never sees the send: the
+transaction commits, the escrow is locked, but there is no commitment and neither counter moves -/
+example :
+    let inPlace : OtherHook := { view := fun ls => (ls.filter (· == .other)) ++ ls.drop (ls.filter (· == .other)).length, ok := fun _ => true }
+    let r := applyTxChain envId c0 [inPlace] true [.sent (pk nB 1), .other]
+    r.2 = .ok ∧ r.1.commits (nB, 1) = none ∧ chainNext r.1 nB = 1 ∧ contractNext r.1 nB = 1 ∧ r.1.escrow (0, nB) = 10 ∧
+    (applyTx envId c0 true [.sent (pk nB 1), .other]).1.commits (nB, 1) ≠ none := by decide
 
 end Examples
 
